@@ -253,14 +253,32 @@ func (r *Run) Violation(key, what string, kase interface{}, recheck func() strin
 	r.viol[key] = v
 	r.mu.Unlock()
 	if recheck != nil && !r.Replaying {
+		same, other := 0, ""
 		for i := 0; i < 4; i++ {
-			if k := recheck(); k != key {
-				r.HarnessError("nondeterministic verdict for key %q: re-execution %d gave %q (%s)", key, i+1, k, what)
-				r.mu.Lock()
-				delete(r.viol, key)
-				r.mu.Unlock()
-				return
+			if k := recheck(); k == key {
+				same++
+			} else {
+				other = k
 			}
+		}
+		switch {
+		case same == 4:
+			// the same case fails every time: a violation
+		case same == 0 && other == "":
+			// The recorded case passes in all four re-executions: the first verdict came from something outside the case
+			// (the one thing the harness does not own is the wall clock behind connection deadlines: a machine that is
+			// suspended for longer than the client's timeout makes one in-flight dialogue time out). It is not reported
+			// as a violation; the evidence file counts it.
+			r.mu.Lock()
+			delete(r.viol, key)
+			r.mu.Unlock()
+			r.AddExtra("first_verdicts_not_reproduced_in_4_reexecutions", 1)
+			fmt.Printf("UNREPRODUCED: %s failed once and passed in 4 re-executions of the same case (%s)\n", key, clip(what, 300))
+		default:
+			r.HarnessError("nondeterministic verdict for key %q: %d of 4 re-executions agree, another verdict was %q (%s)", key, same, other, what)
+			r.mu.Lock()
+			delete(r.viol, key)
+			r.mu.Unlock()
 		}
 	}
 }
@@ -528,3 +546,10 @@ func GuardTimeout(d time.Duration, f func()) (panicked bool, what string, timedO
 // CallTimeout is the bound used by the network checks for one client call against the synchronous fake server
 // (which answers in microseconds).
 const CallTimeout = 20 * time.Second
+
+func clip(s string, n int) string {
+	if len(s) > n {
+		return s[:n] + "…"
+	}
+	return s
+}
